@@ -196,6 +196,12 @@ def gen_specs(rng, quick=True):
             xr, yr, dr = rng.normal(0, s, K), rng.normal(0, s, K), init + rng.normal(0, s, K + 2)
         specs.append(dict(kind="rqs", shape=[], knots=K, interval=[fhex(iv[0]), fhex(iv[1])] if isinstance(iv, tuple) else fhex(iv),
                           min_derivative=fhex(md), softmax_adjust=fhex(sa), x_raw=_h(xr), y_raw=_h(yr), d_raw=_h(dr)))
+    # many knots with sharply peaked bin parameters (|raw| up to 12, inside the property's |raw| <= 50 box): bins whose slope is 1e-8 .. 1e8
+    for K in ((32,) if quick else (32, 64, 48)):
+        md, init = 1e-3, np.log(np.exp(1 - 1e-3) - 1)
+        xr, yr = rng.choice([-12.0, 0.0, 12.0], K, p=[0.15, 0.7, 0.15]) + rng.normal(0, 0.3, K), rng.choice([-12.0, 0.0, 12.0], K, p=[0.15, 0.7, 0.15]) + rng.normal(0, 0.3, K)
+        specs.append(dict(kind="rqs", shape=[], knots=K, interval=fhex(4.0), min_derivative=fhex(md), softmax_adjust=fhex(1e-2), x_raw=_h(xr), y_raw=_h(yr),
+                          d_raw=_h(init + rng.normal(0, 0.5, K + 2))))
     for d in (1, 2, 4):
         for lower in (True, False):
             a = rng.normal(0, 1.5, (d, d))
@@ -228,6 +234,11 @@ def critical_points(spec, obj, direction):
         for b in pos:
             pts += nbrs(float(b))
         pts += [float(pos[0]) - 1.0, float(pos[-1]) + 2.5, 0.5 * (pos[0] + pos[1]), 0.5 * (pos[-2] + pos[-1])]
+        # the middle of every bin (of the widest ones when there are many): the slope inside a bin is not bounded by the knot derivatives
+        # (flat / steep bins of trained splines: seeded change C02f clamped small derivatives)
+        w = np.diff(pos)
+        for j in np.argsort(-w)[:12]:
+            pts += [float(pos[j] + 0.5 * w[j]), float(pos[j] + 0.25 * w[j])]
     elif k == "tanh" and direction == "inv":
         pts += nbrs(1.0) + nbrs(-1.0)
     elif k in ("exp", "softplus") and direction == "inv":
